@@ -2,6 +2,7 @@
 import ast
 from ..model import own_nodes, AnalysisError
 from ..paths import factmap, call_text, returns, must_call, statements
+from ..defuse import closed_text
 
 HIST_CLASSES = ('HostStatisticsInstance', 'ProcStatisticsInstance')
 
@@ -193,24 +194,28 @@ def run(P, R):
     hp = P.unit('ProcStatisticsHolder.push_statistics')
     fm = factmap(hp)
     pops = [c for c in own_nodes(hp.node) if isinstance(c, ast.Call) and call_text(c) == 'self.instance_map.pop']
-    ok = len(pops) == 1 and {tuple(f) for f in fm.at(pops[0])} == {('pid == 0', True)} and \
+    ok = len(pops) == 1 and fm.closed(pops[0]) == {("process_stats['pid'] == 0", True)} and \
         ast.unparse(pops[0].args[0]) == 'identifier'
     R.check(r4, ok, 'pid 0 drops the history of that process on that instance', 'drop|holder', hp.loc(),
             'ProcStatisticsHolder.push_statistics pops under %s' % [sorted(tuple(f) for f in fm.at(c)) for c in pops])
     mk = [a for a in own_nodes(hp.node) if isinstance(a, ast.Assign) and ast.unparse(a.targets[0]) == 'self.instance_map[identifier]']
-    ok = len(mk) == 1 and any(f[1] and f[0] == 'not identifier_instance or not pid == ref_pid' for f in fm.at(mk[0]))
+    ok = len(mk) == 1 and any(pol and t in (
+        "not identifier_instance or not process_stats['pid'] == self.instance_map.get(identifier, (0, None))[0]",
+        "not self.instance_map.get(identifier, (0, None))[1] or not process_stats['pid'] == "
+        "self.instance_map.get(identifier, (0, None))[0]") for t, pol in fm.closed(mk[0]))
     R.check(r4, ok, 'a new PID starts a fresh history', 'drop|pid-change', hp.loc(),
             'ProcStatisticsHolder.push_statistics does not restart the history under `not identifier_instance or pid != '
             'ref_pid`')
     cp = P.unit('ProcStatisticsCompiler.push_statistics')
     fm = factmap(cp)
-    dl = [s for s in statements(cp.node) if isinstance(s, ast.Delete) and ast.unparse(s.targets[0]) == 'self.holder_map[namespec]']
+    dl = [s for s in statements(cp.node) if isinstance(s, ast.Delete) and
+          closed_text(cp, s.targets[0]) == "self.holder_map[process_stats['namespec']]"]
     ok = len(dl) == 1 and {('proc_holder', True), ('proc_holder.instance_map', False)} <= {tuple(f) for f in fm.at(dl[0])}
     R.check(r4, ok, 'an empty holder is deleted', 'drop|compiler', cp.loc(),
             'ProcStatisticsCompiler.push_statistics does not delete a holder whose instance_map is empty')
-    mkh = [a for a in own_nodes(cp.node) if isinstance(a, ast.Assign) and 'self.holder_map[namespec]' in
-           [ast.unparse(t) for t in a.targets]]
-    ok = len(mkh) == 1 and {('pid > 0', True), ('proc_holder', False)} <= {tuple(f) for f in fm.at(mkh[0])}
+    mkh = [a for a in own_nodes(cp.node) if isinstance(a, ast.Assign) and "self.holder_map[process_stats['namespec']]" in
+           [closed_text(cp, t) for t in a.targets]]
+    ok = len(mkh) == 1 and {("process_stats['pid'] > 0", True), ('proc_holder', False)} <= fm.closed(mkh[0])
     R.check(r4, ok, 'a holder is created only for a live process', 'drop|create', cp.loc(),
             'a holder is created under %s' % [sorted(tuple(f) for f in fm.at(a)) for a in mkh])
     up = P.unit('ProcessStatisticsCollector.update_process_list')
